@@ -82,6 +82,11 @@ Outstanding(b) == {x \in out : x.b = b}
 HostsOf(ss) == {conn[b].h : b \in {x \in DOMAIN conn : conn[x].sess = ss}}
 ShakyNow(ss) == {h \in HostsOf(ss) : Shaky(h, ss)}
 WasShaky(q, h) == Shaky(h, q.sess) \/ h \in q.shaky \/ h \notin HostsOf(q.sess)
+\* "no connection for the host" (every slot of its pool empty) is a stronger statement than a failed write: it is only
+\* justified when NONE of the host's connections was known to be usable at some moment since the request's previous event
+Down(h, ss) == AliveGood(h, ss) = {}
+DownNow(ss) == {h \in HostsOf(ss) : Down(h, ss)}
+WasDown(q, h) == Down(h, q.sess) \/ h \in q.down \/ h \notin HostsOf(q.sess)
 
 NewReq(c, s, idem, op, cached, tok, ss) ==
     [c |-> c, s |-> s, idem |-> idem, op |-> op, cached |-> cached, tok |-> tok, sess |-> ss,
@@ -92,6 +97,7 @@ NewReq(c, s, idem, op, cached, tok, ss) ==
      rlo |-> 0,                \* lower bound of the retry count: below `retry` only when a counted answer may have
      prlo |-> 0,               \* been lost with its connection before the proxy read it (maylost; prlo is the lower
      shaky |-> {},             \* hosts that were shaky at some moment since the request's previous logged event
+     down |-> {},              \* hosts without any usable connection at some moment since then
      maylost |-> FALSE,        \* bound before that answer, which is the effective one while maylost)
      tried |-> <<>>,           \* hosts consumed from the query plan, in order
      cur |-> NONE,             \* host of the current attempt
@@ -113,7 +119,7 @@ NewReq(c, s, idem, op, cached, tok, ss) ==
 -----------------------------------------------------------------------------
 (* Environment: client submits a request.                                          *)
 DoSubmit(r, c, s, idem, op, cached, tok, ss) ==
-    /\ rq' = (r :> [NewReq(c, s, idem, op, cached, tok, ss) EXCEPT !.shaky = ShakyNow(ss)]) @@ rq
+    /\ rq' = (r :> [NewReq(c, s, idem, op, cached, tok, ss) EXCEPT !.shaky = ShakyNow(ss), !.down = DownNow(ss)]) @@ rq
     /\ bad' = Flag(r \notin DOMAIN rq, "HARNESS", "request id reused", r)
     /\ UNCHANGED <<conn, out>>
 
@@ -166,7 +172,7 @@ DoTake(r, h, b, bs, op) ==
                           !.must = IF q.fork THEN q.must \ {"next", "same", "prep"} ELSE {},
                           !.cur = IF isprep THEN q.cur ELSE h,
                           !.ab = b,
-                          !.shaky = ShakyNow(q.sess),
+                          !.shaky = ShakyNow(q.sess), !.down = DownNow(q.sess),
                           !.mode = IF isprep THEN "prep" ELSE "req",
                           !.pans = IF isprep THEN "none" ELSE q.pans,
                           !.ans = NONE,
@@ -217,7 +223,7 @@ DoAnswer(r, b, bs, o) ==
     /\ out' = out \ {x}
     /\ rq' = [rq EXCEPT ![r] =
                 IF current THEN
-                    [q EXCEPT !.shaky = ShakyNow(q.sess), !.ph = "exec", !.must = IF q.fork THEN q.must \cup newmust \cup {"reply_" \o ReplyKind(o)} ELSE newmust,
+                    [q EXCEPT !.shaky = ShakyNow(q.sess), !.down = DownNow(q.sess), !.ph = "exec", !.must = IF q.fork THEN q.must \cup newmust \cup {"reply_" \o ReplyKind(o)} ELSE newmust,
                               !.retry = newretry, !.rlo = newrlo, !.prlo = lo, !.maylost = FALSE, !.ans = o,
                               !.pans = IF x.op = "prep" THEN o ELSE q.pans,
                               !.unsafe = IF x.op = "req" THEN (q.unsafe \/ o \notin SafeToResend) ELSE q.unsafe,
@@ -241,7 +247,8 @@ DoDrop(b) ==
     /\ out' = out \ lost
     /\ rq' = [r \in DOMAIN rq |->
                 \* the host of the dropped connection is shaky from now on: every request of its session may meet that
-                LET q == IF known /\ rq[r].sess = conn[b].sess THEN [rq[r] EXCEPT !.shaky = @ \cup {conn[b].h}] ELSE rq[r] IN
+                LET q == IF known /\ rq[r].sess = conn[b].sess THEN [rq[r] EXCEPT !.shaky = @ \cup {conn[b].h},
+                                                                                          !.down = IF AliveGood(conn[b].h, conn[b].sess) \ {b} = {} THEN @ \cup {conn[b].h} ELSE @] ELSE rq[r] IN
                 IF q.ph = "wait" /\ q.ab = b /\ (\E x \in lost : x.r = r)
                 THEN [q EXCEPT !.ph = "exec",
                                !.must = IF q.fork THEN (q.must \ {"next", "same", "prep"}) \cup OnCloseMoves(q) ELSE OnCloseMoves(q),
@@ -268,6 +275,7 @@ DoSendFail(r, h, why) ==
     \* requests of the session submitted and not yet answered (each holds at most one id per connection at a time; the
     \* proxy's own heartbeats and re-prepares hold a few more)
     LET justified == IF why = "streams" THEN Cardinality({x \in DOMAIN rq : rq[x].nrep = 0 /\ rq[x].sess = q.sess}) + 16 >= StreamLimit
+                     ELSE IF why = "noconn" THEN WasDown(q, h)
                      ELSE WasShaky(q, h)
         asNext == q.ph = "exec" /\ TakeIsNext(q, h)
         asSame == q.ph = "exec" /\ TakeIsSame(q, h) /\ ~asNext
@@ -280,7 +288,7 @@ DoSendFail(r, h, why) ==
     IN
     /\ rq' = [rq EXCEPT ![r] =
                 [q EXCEPT !.tried = IF asNext \/ asGhost THEN Append(q.tried, h) ELSE q.tried,
-                          !.shaky = ShakyNow(q.sess),
+                          !.shaky = ShakyNow(q.sess), !.down = DownNow(q.sess),
                           !.stale = (IF asGhost THEN q.stale - 1 ELSE q.stale) + (IF why = "write" THEN 1 ELSE 0),
                           !.fork = q.fork \/ why = "write",
                           !.ans = IF asNext \/ asSame \/ asPrep THEN NONE ELSE q.ans,
@@ -304,8 +312,8 @@ DoOnClose(r, h) ==
         asSame == q.ph = "exec" /\ ~asNext /\ (TakeIsSame(q, h) \/ ("prep" \in q.must /\ h = q.cur))
     IN
     /\ rq' = [rq EXCEPT ![r] =
-                IF asNext THEN [q EXCEPT !.tried = Append(q.tried, h), !.cur = h, !.must = OnCloseMoves(q), !.ans = NONE, !.shaky = ShakyNow(q.sess)]
-                ELSE IF asSame THEN [q EXCEPT !.must = OnCloseMoves(q), !.ans = NONE, !.shaky = ShakyNow(q.sess)]
+                IF asNext THEN [q EXCEPT !.tried = Append(q.tried, h), !.cur = h, !.must = OnCloseMoves(q), !.ans = NONE, !.shaky = ShakyNow(q.sess), !.down = DownNow(q.sess)]
+                ELSE IF asSame THEN [q EXCEPT !.must = OnCloseMoves(q), !.ans = NONE, !.shaky = ShakyNow(q.sess), !.down = DownNow(q.sess)]
                 ELSE q]
     /\ bad' = Flag(~(asNext \/ asSame) \/ WasShaky(q, h) \/ q.fork, "C05", "request notified of a closed connection on a host whose connections are all up", r)
     /\ UNCHANGED <<conn, out>>
@@ -375,9 +383,12 @@ Owed(r) == /\ rq[r].nrep = 0 /\ ~rq[r].closed
 DoQuiet ==
     /\ bad' = LET owed == {r \in DOMAIN rq : Owed(r)} IN
               IF owed = {} THEN bad
-              ELSE LET afterprep == {r \in owed : rq[r].mode = "prep"} IN
+              ELSE LET afterprep == {r \in owed : rq[r].mode = "prep" \/ "prep" \in rq[r].must} IN
                    \* C08: "if re-preparation fails the request moves on to the next host instead of hanging or being dropped"
-                   IF afterprep # {} THEN Flag(FALSE, "C08", "request hangs after its statement was re-prepared (never re-executed, never answered)", CHOOSE r \in afterprep : TRUE)
+                   IF afterprep # {} THEN Flag(FALSE, "C08", IF \E r \in afterprep : rq[r].mode = "prep"
+                                                                  THEN "request hangs after its statement was re-prepared (never re-executed, never answered)"
+                                                                  ELSE "request hangs although its statement has to be re-prepared (never re-prepared, never answered)",
+                                                     CHOOSE r \in afterprep : TRUE)
                    ELSE Flag(FALSE, "C01", "request never answered although every attempt was answered or dropped", CHOOSE r \in owed : TRUE)
     /\ UNCHANGED <<rq, conn, out>>
 
